@@ -23,8 +23,8 @@ From PV Require Import C02.C02_Model.
 Import ListNotations.
 Local Open Scope Z_scope.
 
-Module K := PV.Sched.Core.
-Module P := PV.Sched.Prog.
+
+
 
 (* ops of the E2 programs; i = index of the semaphore in the case line's decl list *)
 Inductive sem_op : Type :=
@@ -38,26 +38,26 @@ Inductive sem_op : Type :=
 (* one fine-grained state per decl (a dummy for decls that are not semaphores) *)
 Definition U : Type := list state.
 
-Definition conv_in (x : K.tstate) : tstate :=
-  match x with K.READY => Ready | K.RUNNING => Running | K.SLEEPING => Sleeping | _ => Standby end.
+Definition conv_in (x : Core.tstate) : tstate :=
+  match x with Core.READY => Ready | Core.RUNNING => Running | Core.SLEEPING => Sleeping | _ => Standby end.
 
-Definition in_this_q (i : nat) (w : option K.qid) : bool :=
-  match w with Some (K.QUser j) => Nat.eqb i j | _ => false end.
+Definition in_this_q (i : nat) (w : option Core.qid) : bool :=
+  match w with Some (Core.QUser j) => Nat.eqb i j | _ => false end.
 
-Definition sync_thread (i : nat) (kt : K.thread) (ft : thread) : thread :=
-  set_slq (set_ts (set_err (set_inq (set_state ft (conv_in (K.th_state kt))) (in_this_q i (K.th_waitq kt)))
-                           (K.th_err kt)) (K.th_ts kt))
-          (K.tstate_eqb (K.th_state kt) K.SLEEPING).
+Definition sync_thread (i : nat) (kt : Core.thread) (ft : thread) : thread :=
+  set_slq (set_ts (set_err (set_inq (set_state ft (conv_in (Core.th_state kt))) (in_this_q i (Core.th_waitq kt)))
+                           (Core.th_err kt)) (Core.th_ts kt))
+          (Core.tstate_eqb (Core.th_state kt) Core.SLEEPING).
 
-Fixpoint sync_threads (i : nat) (kts : list K.thread) (fts : list thread) : list thread :=
+Fixpoint sync_threads (i : nat) (kts : list Core.thread) (fts : list thread) : list thread :=
   match kts, fts with
   | kt :: kr, ft :: fr => sync_thread i kt ft :: sync_threads i kr fr
   | _, _ => []
   end.
 
-Definition sync_in (st : K.state U) (i : nat) (f : state) : state :=
-  set_gwakes (set_threads (set_queue (set_now f (K.s_now st)) (K.wq_get st (K.QUser i)))
-                          (sync_threads i (K.s_threads st) (threads f))) [].
+Definition sync_in (st : Core.state U) (i : nat) (f : state) : state :=
+  set_gwakes (set_threads (set_queue (set_now f (Core.s_now st)) (Core.wq_get st (Core.QUser i)))
+                          (sync_threads i (Core.s_threads st) (threads f))) [].
 
 (* is thread t spinning on a spinlock that is held?  (on one vCPU: for ever) *)
 Definition held (l : option part) : bool := match l with Some _ => true | None => false end.
@@ -103,17 +103,17 @@ Fixpoint list_eqb (a b : list nat) : bool :=
 
 (* do the two views agree on thread j?  (`skip`: the thread that is about to be put to sleep by
    Core, whose fine-grained record is already SLEEPING) *)
-Definition thread_agrees (i : nat) (kt : K.thread) (ft : thread) : bool :=
-  (K.th_err kt =? t_err ft) &&
-  Bool.eqb (in_this_q i (K.th_waitq kt)) (t_inq ft) &&
+Definition thread_agrees (i : nat) (kt : Core.thread) (ft : thread) : bool :=
+  (Core.th_err kt =? t_err ft) &&
+  Bool.eqb (in_this_q i (Core.th_waitq kt)) (t_inq ft) &&
   match t_state ft with
-  | Sleeping => K.tstate_eqb (K.th_state kt) K.SLEEPING
-  | Ready => K.tstate_eqb (K.th_state kt) K.READY
-  | Running => K.tstate_eqb (K.th_state kt) K.RUNNING
-  | Standby => negb (K.tstate_eqb (K.th_state kt) K.SLEEPING || K.tstate_eqb (K.th_state kt) K.READY
-                     || K.tstate_eqb (K.th_state kt) K.RUNNING)
+  | Sleeping => Core.tstate_eqb (Core.th_state kt) Core.SLEEPING
+  | Ready => Core.tstate_eqb (Core.th_state kt) Core.READY
+  | Running => Core.tstate_eqb (Core.th_state kt) Core.RUNNING
+  | Standby => negb (Core.tstate_eqb (Core.th_state kt) Core.SLEEPING || Core.tstate_eqb (Core.th_state kt) Core.READY
+                     || Core.tstate_eqb (Core.th_state kt) Core.RUNNING)
   end.
-Fixpoint threads_agree (i : nat) (skip : option nat) (j : nat) (kts : list K.thread) (fts : list thread) : bool :=
+Fixpoint threads_agree (i : nat) (skip : option nat) (j : nat) (kts : list Core.thread) (fts : list thread) : bool :=
   match kts, fts with
   | kt :: kr, ft :: fr =>
       ((match skip with Some x => Nat.eqb x j | None => false end) || thread_agrees i kt ft)
@@ -122,85 +122,85 @@ Fixpoint threads_agree (i : nat) (skip : option nat) (j : nat) (kts : list K.thr
   | _, _ => false
   end.
 
-Definition set_user_nth (st : K.state U) (i : nat) (f : state) : K.state U :=
-  K.set_user st (upd_nth (K.s_user st) i f).
+Definition set_user_nth (st : Core.state U) (i : nat) (f : state) : Core.state U :=
+  Core.set_user st (upd_nth (Core.s_user st) i f).
 
 (* write the effects of a phase back into the Core state *)
-Definition sync_out (st : K.state U) (i : nat) (f : state) (skip : option nat) : K.state U :=
-  let st1 := fold_left (fun acc x => K.prelocked_interrupt acc x (-1)) (rev (g_wakes f)) st in
+Definition sync_out (st : Core.state U) (i : nat) (f : state) (skip : option nat) : Core.state U :=
+  let st1 := fold_left (fun acc x => Core.prelocked_interrupt acc x (-1)) (rev (g_wakes f)) st in
   let qf := match skip with Some x => remove_tid x (queue f) | None => queue f end in
-  let ok := list_eqb (K.wq_get st1 (K.QUser i)) qf
-            && threads_agree i skip 0 (K.s_threads st1) (threads f) in
+  let ok := list_eqb (Core.wq_get st1 (Core.QUser i)) qf
+            && threads_agree i skip 0 (Core.s_threads st1) (threads f) in
   let st2 := set_user_nth st1 i (set_gwakes f []) in
-  if ok then st2 else K.set_stuck st2.
+  if ok then st2 else Core.set_stuck st2.
 
 (* after Core's prepare_usleep: compare the views of the sleeper, run the deferred unlock *)
-Definition after_sleep (i t : nat) (st : K.state U) : K.state U :=
-  let f := nth i (K.s_user st) (init 0 false [] 0) in
-  let kt := K.getth st t in
-  let ok := list_eqb (K.wq_get st (K.QUser i)) (queue f)
-            && (K.th_ts kt =? t_ts (getth f t))
-            && K.tstate_eqb (K.th_state kt) K.SLEEPING
-            && in_this_q i (K.th_waitq kt) in
+Definition after_sleep (i t : nat) (st : Core.state U) : Core.state U :=
+  let f := nth i (Core.s_user st) (init 0 false [] 0) in
+  let kt := Core.getth st t in
+  let ok := list_eqb (Core.wq_get st (Core.QUser i)) (queue f)
+            && (Core.th_ts kt =? t_ts (getth f t))
+            && Core.tstate_eqb (Core.th_state kt) Core.SLEEPING
+            && in_this_q i (Core.th_waitq kt) in
   match t_pc (getth f t) with
   | WDefer _ =>
       match tstep f t with
-      | Some f' => let st1 := set_user_nth st i f' in if ok then st1 else K.set_stuck st1
-      | None => K.set_stuck st
+      | Some f' => let st1 := set_user_nth st i f' in if ok then st1 else Core.set_stuck st1
+      | None => Core.set_stuck st
       end
-  | _ => K.set_stuck st
+  | _ => Core.set_stuck st
   end.
 
 (* finish a phase: map the stop reason to an action *)
-Definition finish (st : K.state U) (i t : nat) (r : state * stop) : K.state U * P.action U :=
+Definition finish (st : Core.state U) (i t : nat) (r : state * stop) : Core.state U * Prog.action U :=
   let '(f, why) := r in
   match why with
   | StRet =>
       let th := getth f t in
-      (sync_out st i f None, P.ARet (t_ret th) (if t_ret th <? 0 then t_errno th else 0))
+      (sync_out st i f None, Prog.ARet (t_ret th) (if t_ret th <? 0 then t_errno th else 0))
   | StSleep =>
       (sync_out st i f (Some t),
-       P.ASleep (t_ts (getth f t)) (Some (K.QUser i)) (Some (after_sleep i t)) [2])
-  | _ => (st, P.AStuck)
+       Prog.ASleep (t_ts (getth f t)) (Some (Core.QUser i)) (Some (after_sleep i t)) [2])
+  | _ => (st, Prog.AStuck)
   end.
 
-Definition sem_call (st : K.state U) (t : nat) (i : nat) (o : opcall) (k : K.kont) : K.state U * P.action U :=
-  match nth_error (K.s_user st) i with
-  | None => (st, P.ARet P.SKIPPED 0)
+Definition sem_call (st : Core.state U) (t : nat) (i : nat) (o : opcall) (k : Core.kont) : Core.state U * Prog.action U :=
+  match nth_error (Core.s_user st) i with
+  | None => (st, Prog.ARet Prog.SKIPPED 0)
   | Some f0 =>
       match k with
       | [] =>
           let f := sync_in st i f0 in
           match start f t o with
           | Some f1 => finish st i t (run_thread PHASE_FUEL f1 t)
-          | None => (st, P.AStuck)
+          | None => (st, Prog.AStuck)
           end
       | [2] =>                                   (* woken: the fine-grained WAsleep step reads and
                                                     clears error_number (set_error_number) *)
           let f := sync_in st i f0 in
-          let '(st1, _, _) := K.set_error_number st t in
+          let '(st1, _, _) := Core.set_error_number st t in
           finish st1 i t (run_thread PHASE_FUEL f t)
-      | _ => (st, P.AStuck)
+      | _ => (st, Prog.AStuck)
       end
   end.
 
-Definition sem_step (st : K.state U) (t : nat) (o : sem_op) (k : K.kont) : K.state U * P.action U :=
+Definition sem_step (st : Core.state U) (t : nat) (o : sem_op) (k : Core.kont) : Core.state U * Prog.action U :=
   match o with
   | SemWait i c tmo => sem_call st t i (OpWait c tmo true) k
   | SemWaitI i c tmo => sem_call st t i (OpWait c tmo false) k
   | SemSignal i n => sem_call st t i (OpSignal n) k
   | SemCount i =>
-      match nth_error (K.s_user st) i with
-      | Some f => (st, P.ARet (m_count f) 0)
-      | None => (st, P.ARet P.SKIPPED 0)
+      match nth_error (Core.s_user st) i with
+      | Some f => (st, Prog.ARet (m_count f) 0)
+      | None => (st, Prog.ARet Prog.SKIPPED 0)
       end
   | SemHead i =>
-      match nth_error (K.s_user st) i with
-      | Some f => match K.wq_get st (K.QUser i) with
-                  | x :: _ => (st, P.ARet (t_semcnt (getth f x)) 0)
-                  | [] => (st, P.ARet 0 0)
+      match nth_error (Core.s_user st) i with
+      | Some f => match Core.wq_get st (Core.QUser i) with
+                  | x :: _ => (st, Prog.ARet (t_semcnt (getth f x)) 0)
+                  | [] => (st, Prog.ARet 0 0)
                   end
-      | None => (st, P.ARet P.SKIPPED 0)
+      | None => (st, Prog.ARet Prog.SKIPPED 0)
       end
   end.
 
@@ -208,5 +208,5 @@ Definition sem_step (st : K.state U) (t : nat) (o : sem_op) (k : K.kont) : K.sta
 Definition sem_init (count : Z) (in_order : bool) (n : nat) : state :=
   init count (negb in_order) (repeat (Some O) (S n)) 1.
 
-Definition sem_run (fuel : nat) (ps : list (list (P.op sem_op))) (u0 : U) :=
-  P.coop_result sem_step ps fuel P.VCLOCK_START u0.
+Definition sem_run (fuel : nat) (ps : list (list (Prog.op sem_op))) (u0 : U) :=
+  Prog.coop_result sem_step ps fuel Prog.VCLOCK_START u0.
